@@ -55,7 +55,7 @@ Inductive dop := Copy (off len : Z) | Lit (d : list Z).
 Definition push_copy (r : list dop) (off len : Z) : list dop :=
   match r with
   | Copy o l :: r' =>
-      if (o + l =? off) && (l + len <? 2^32) then Copy o (l + len) :: r' else Copy off len :: r
+      if (o + l =? off) && (l + len <? P32) then Copy o (l + len) :: r' else Copy off len :: r
   | _ => Copy off len :: r
   end.
 Definition push_lit (r : list dop) (d : list Z) : list dop :=
@@ -110,10 +110,69 @@ Definition compute_delta (sg : signature) (src : list Z) : delta :=
   {| d_block_size := w32 (s_block_size sg); d_source_size := n; d_basis_size := s_file_size sg;
      d_ops := ops; d_checksum := H src |}.
 
+
+(** ** Execution-friendly variant of the scan: literal payloads are kept reversed
+    while building (appending one byte to a list is linear).  DeltaProofs.v
+    proves [compute_delta_fast = compute_delta]; only the fast one is extracted. *)
+Inductive dopR := CopyR (off len : Z) | LitR (rev_payload : list Z).
+
+Definition push_copyR (r : list dopR) (off len : Z) : list dopR :=
+  match r with
+  | CopyR o l :: r' =>
+      if (o + l =? off) && (l + len <? P32) then CopyR o (l + len) :: r' else CopyR off len :: r
+  | _ => CopyR off len :: r
+  end.
+Definition push_litR (r : list dopR) (d : list Z) : list dopR :=
+  match d with
+  | [] => r
+  | _ => match r with LitR p :: r' => LitR (rev_append d p) :: r' | _ => LitR (rev_append d []) :: r end
+  end.
+Definition push_lit_byteR (r : list dopR) (x : Z) : list dopR :=
+  match r with LitR p :: r' => LitR (x :: p) :: r' | _ => LitR [x] :: r end.
+
+Definition unR (o : dopR) : dop :=
+  match o with CopyR off len => Copy off len | LitR p => Lit (rev' p) end.
+
+Fixpoint scanR (bz : Z) (fuel : nat) (sg : list bsig) (rest ahead : list Z) (n : Z) (st : frc) (r : list dopR)
+  : list dopR :=
+  match fuel with
+  | O => r
+  | S f =>
+    if bz <=? n then
+      match lookup sg st rest with
+      | Some b =>
+          let n' := n - bz in
+          let st' := if bz <=? n' then frc_new (firstn bs ahead) else st in
+          scanR bz f sg ahead (skipn bs ahead) n' st' (push_copyR r (b_idx b * bz) (w32 bz))
+      | None =>
+          match rest with
+          | [] => r
+          | x :: rest' =>
+              let st' := match ahead with y :: _ => frc_roll st x y | [] => st end in
+              scanR bz f sg rest' (tl ahead) (n - 1) st' (push_lit_byteR r x)
+          end
+      end
+    else push_litR r rest
+  end.
+
+Definition compute_delta_fast (sg : signature) (src : list Z) : delta :=
+  let n := Z.of_nat (length src) in
+  let ops :=
+    match src with
+    | [] => []
+    | _ => match s_blocks sg with
+           | [] => [Lit src]
+           | _ => rev' (map unR (scanR bsz (S (length src)) (s_blocks sg) src (skipn bs src) n
+                                      (frc_new (firstn bs src)) []))
+           end
+    end in
+  {| d_block_size := w32 (s_block_size sg); d_source_size := n; d_basis_size := s_file_size sg;
+     d_ops := ops; d_checksum := H src |}.
+
 (** ** Patch *)
 Inductive presult := POk (out : list Z) | PErrBounds | PErrIo | PErrChecksum | PPanic.
 
-Definition sat_add64 (a b : Z) : Z := Z.min (a + b) (2^64 - 1).
+Definition sat_add64 (a b : Z) : Z := Z.min (a + b) (P64 - 1).
 
 Fixpoint validate (basis_size : Z) (ops : list dop) : bool :=
   match ops with
@@ -150,7 +209,7 @@ Fixpoint out_len (ops : list dop) : Z :=
 (** [checked] = the profile with debug assertions and overflow checks (only
     CopiaSync::patch has the two debug_assert_eq!s); [verify] = verify_checksum. *)
 Definition patch (checked verify : bool) (basis : list Z) (d : delta) : presult :=
-  if checked && negb ((out_len (d_ops d) <? 2^64) && (out_len (d_ops d) =? d_source_size d)) then PPanic
+  if checked && negb ((out_len (d_ops d) <? P64) && (out_len (d_ops d) =? d_source_size d)) then PPanic
   else if negb (validate (d_basis_size d) (d_ops d)) then PErrBounds
   else match apply_ops basis (d_ops d) with
        | None => PErrIo
